@@ -515,7 +515,7 @@ PROPS["C04"] = dict(
           "attributes, non-ASCII text; sequences nested three deep incl. an empty sequence and an empty item; encapsulated pixel data with offset "
           "table and two fragments) written with write_dataset_with_ts in Implicit VR LE, Explicit VR LE, Explicit VR BE and Deflated Explicit "
           "VR LE: the written stream is walked by an independent recursive reader of the PS3.5 layout: every defined value length is even and its bytes follow, undefined-length sequences and items are closed by the matching delimiters, defined lengths end where they say, tags ascend, nothing is left over",
-          bound="15 (object, transfer syntax) pairs (the deflated stream is only round-tripped) + 6 hand-encoded streams with defined-length sequences / items, which must be reproduced byte for byte when the recorded lengths are kept (native run of the compiled code; not a deductive result)",
+          bound="15 (object, transfer syntax) pairs (the deflated stream is only round-tripped) + 8 hand-encoded streams with defined-length sequences / items (two of them with a sequence FOLLOWING encapsulated pixel data), which must be reproduced byte for byte when the recorded lengths are kept and be structurally valid under the default strategy (native run of the compiled code; not a deductive result)",
           fns=[("object/src/mem.rs", "write_dataset_with_ts")]),
         N("C04.elements", _WR % "c04_elements",
           "element level, on the compiled code: StatefulEncoder::encode_primitive_element with the three real encoders over every "
@@ -578,7 +578,7 @@ PROPS["C01"] = dict(
           "attributes, non-ASCII text; sequences nested three deep incl. an empty sequence and an empty item; encapsulated pixel data with offset "
           "table and two fragments) written with write_dataset_with_ts in Implicit VR LE, Explicit VR LE, Explicit VR BE and Deflated Explicit "
           "VR LE: the stream read back in the same transfer syntax is equal to the written object up to the documented normalisations, and writing it again gives the same bytes",
-          bound="20 (object, transfer syntax) pairs + 6 hand-encoded streams with defined-length sequences / items re-written with the recorded lengths kept and with the default strategy (native run of the compiled code; not a deductive result)",
+          bound="20 (object, transfer syntax) pairs + 8 hand-encoded streams with defined-length sequences / items (two of them with a sequence FOLLOWING encapsulated pixel data) re-written with the recorded lengths kept and with the default strategy (native run of the compiled code; not a deductive result)",
           fns=[("object/src/mem.rs", "write_dataset_with_ts"), ("object/src/mem.rs", "read_dataset_with_ts")]),
         N("C01.elements", _WR % "c01_elements",
           "element level, on the compiled code (Kani aborts on StatefulDecoder::read_value): an element written by the real "
